@@ -17,21 +17,14 @@ theorem nested_empty_doc' (c : Codec) :
     geomDoc c (.val (.collection [.collection []])) = nullMemberDoc := by
   cases c <;> rfl
 
-theorem null_member_panics' (c : Codec) : (geomOfDoc c nullMemberDoc).isPanic = true := by
-  cases c <;> decide
+theorem null_member_rejected' (c : Codec) : geomOfDoc c nullMemberDoc = .err .invalid := by
+  cases c <;> rfl
 
-theorem null_member_panics_ptr' : (geomPtrOfDoc nullMemberDoc).isPanic = true := by decide
+theorem feature_null_member_rejected' (c : Codec) :
+    featureOfDoc c false (.obj [("type", .str "Feature"), ("geometry", nullMemberDoc)]) = .err .invalid := by
+  cases c <;> rfl
 
-theorem feature_null_member_panics' (c : Codec) :
-    (featureOfDoc c false (.obj [("type", .str "Feature"), ("geometry", nullMemberDoc)])).isPanic = true := by
-  cases c <;> decide
-
-theorem fc_null_member_panics' (c : Codec) :
-    (fcOfDoc c false (.obj [("type", .str "FeatureCollection"),
-      ("features", .arr [.obj [("type", .str "Feature"), ("geometry", nullMemberDoc)]])])).isPanic = true := by
-  cases c <;> decide
-
-theorem feature_padded_null_panics' : (featureOfDoc .json false .null).isPanic = true := by decide
+theorem feature_padded_null' : (featureOfDoc .json false .null).isOk = true := by decide
 
 theorem empty_collection_rejected' :
     geomOfDoc .json (geomDoc .json (.val (.collection []))) = .err .invalid := by rfl
@@ -50,37 +43,7 @@ theorem bson_empty_coordinates' :
     geomDoc .bson (.val (.multiPoint [])) = .obj [("type", .str "MultiPoint")] ∧
     geomOfDoc .bson (geomDoc .bson (.val (.multiPoint []))) = .err .json := ⟨rfl, rfl⟩
 
-/-! ### the part of totality that holds on the pinned tree: documents without a `null` array element -/
-
-def isNull : Json → Bool
-  | .null => true
-  | _ => false
-
-mutual
-/-- no array of the document has a `null` element -/
-def noNullElem : Json → Bool
-  | .arr l => noNullElems l
-  | .obj ms => noNullMembers ms
-  | _ => true
-def noNullElems : List Json → Bool
-  | [] => true
-  | j :: js => !isNull j && noNullElem j && noNullElems js
-def noNullMembers : Members → Bool
-  | [] => true
-  | (_, v) :: ms => noNullElem v && noNullMembers ms
-end
-
-theorem noNullElems_iff (l : List Json) :
-    noNullElems l = true ↔ ∀ j ∈ l, isNull j = false ∧ noNullElem j = true := by
-  induction l with
-  | nil => simp [noNullElems]
-  | cons j l ih => simp [noNullElems, ih, and_assoc]
-
-theorem noNullMembers_iff (ms : Members) :
-    noNullMembers ms = true ↔ ∀ kv ∈ ms, noNullElem kv.2 = true := by
-  induction ms with
-  | nil => simp [noNullMembers]
-  | cons kv ms ih => obtain ⟨k, v⟩ := kv; simp [noNullMembers, ih]
+/-! ### totality: no decoder panics, whatever the document -/
 
 /-- the coordinate decoders return a value or an error -/
 theorem coordsOf_noPanic (c : Codec) (ty : String) (j : Json) (r : R V) (h : coordsOf c ty j = some r) :
@@ -102,18 +65,14 @@ theorem coordsOf_noPanic (c : Codec) (ty : String) (j : Json) (r : R V) (h : coo
             | some o => cases o <;> rfl))
     | simp at h
 
-/-- the invariant of the struct decode: the decoded "geometries" have no nil pointer -/
-def GoodSt (st : GSt) : Prop := ∀ ds, st.geoms = some ds → hasNilMember ds = false
-
-theorem finishGeometry_noPanic (c : Codec) (st : GSt) (h : GoodSt st) :
-    (finishGeometry c st).isPanic = false := by
+theorem finishGeometry_noPanic (c : Codec) (st : GSt) : (finishGeometry c st).isPanic = false := by
   unfold finishGeometry
   split
   · rfl
   · split
-    · cases hg : st.geoms with
+    · cases st.geoms with
       | none => rfl
-      | some ds => simp [h ds hg]; rfl
+      | some ds => simp only; split <;> rfl
     · cases st.coords with
       | none =>
         simp only
@@ -126,128 +85,97 @@ theorem finishGeometry_noPanic (c : Codec) (st : GSt) (h : GoodSt st) :
           have := coordsOf_noPanic c st.ty j r hk
           cases r <;> simp_all [Res.isPanic]
 
-/-- what the induction carries for a value `j`: decoding it as a geometry does not panic, and
-    decoding it as a "geometries" array does not panic and yields no nil pointer -/
+/-- what the induction carries for a value `j`: decoding it as a geometry does not panic, nor does
+    decoding it as a "geometries" array -/
 def NoPanicAt (c : Codec) (j : Json) : Prop :=
-  (decodeGeometry c j).isPanic = false ∧ (geomsOf c j).isPanic = false ∧
-    ∀ ds, geomsOf c j = .ok ds → hasNilMember ds = false
+  (decodeGeometry c j).isPanic = false ∧ (geomsOf c j).isPanic = false
 
-theorem gTypeErr_cases (c : Codec) (st : GSt) :
-    gTypeErr c st = .ok { st with saved := true } ∨ gTypeErr c st = .err .json := by
-  cases c <;> simp [gTypeErr]
+theorem gTypeErr_noPanic (c : Codec) (st : GSt) : (gTypeErr c st).isPanic = false := by
+  cases c <;> rfl
 
-theorem gStep_good (c : Codec) (k : String) (v : Json) (st : GSt) (hst : GoodSt st) (hv : NoPanicAt c v) :
-    (gStep c k v st (geomsOf c v)).isPanic = false ∧
-      ∀ st', gStep c k v st (geomsOf c v) = .ok st' → GoodSt st' := by
+theorem gStep_noPanic (c : Codec) (k : String) (v : Json) (st : GSt) (hv : NoPanicAt c v) :
+    (gStep c k v st (geomsOf c v)).isPanic = false := by
   unfold gStep
   split
-  · -- type
-    unfold gTypeField
-    split
-    · exact ⟨rfl, fun st' h => by cases h; exact hst⟩
-    · exact ⟨rfl, fun st' h => by cases h; exact hst⟩
-    · rcases gTypeErr_cases c st with h | h <;> rw [h]
-      · exact ⟨rfl, fun st' h => by cases h; exact hst⟩
-      · exact ⟨rfl, fun st' h => by cases h⟩
+  · unfold gTypeField
+    split <;> first | rfl | exact gTypeErr_noPanic c st
   · split
-    · exact ⟨rfl, fun st' h => by cases h; exact hst⟩
+    · rfl
     · split
-      · -- geometries
-        obtain ⟨_, h2, h3⟩ := hv
-        have hte : (gTypeErr c st).isPanic = false ∧ ∀ st', gTypeErr c st = .ok st' → GoodSt st' := by
-          rcases gTypeErr_cases c st with h | h <;> rw [h]
-          · exact ⟨rfl, fun st' h => by cases h; exact hst⟩
-          · exact ⟨rfl, fun st' h => by cases h⟩
-        cases v with
-        | null => exact ⟨rfl, fun st' h => by cases h; intro ds hds; cases hds⟩
+      · cases v with
+        | null => rfl
         | arr l =>
           simp only [gGeomsField]
-          cases hg : geomsOf c (.arr l) with
-          | ok ds =>
-            refine ⟨rfl, fun st' h => ?_⟩
-            cases h
-            intro ds' hds'
-            cases hds'
-            exact h3 ds hg
-          | err e => exact ⟨rfl, fun st' h => by cases h⟩
-          | panic s => rw [hg] at h2; cases h2
-        | bool b => simpa [gGeomsField] using hte
-        | num b => simpa [gGeomsField] using hte
-        | str s => simpa [gGeomsField] using hte
-        | obj ms => simpa [gGeomsField] using hte
-      · exact ⟨rfl, fun st' h => by cases h; exact hst⟩
+          have h2 := hv.2
+          revert h2
+          cases geomsOf c (.arr l) <;> simp [Res.isPanic]
+        | bool b => simpa [gGeomsField] using gTypeErr_noPanic c st
+        | num b => simpa [gGeomsField] using gTypeErr_noPanic c st
+        | str s => simpa [gGeomsField] using gTypeErr_noPanic c st
+        | obj ms => simpa [gGeomsField] using gTypeErr_noPanic c st
+      · rfl
 
-theorem decodeGMembers_good (c : Codec) (ms : Members) (hms : ∀ kv ∈ ms, NoPanicAt c kv.2) :
-    ∀ st, GoodSt st → (decodeGMembers c ms st).isPanic = false ∧
-      ∀ st', decodeGMembers c ms st = .ok st' → GoodSt st' := by
+theorem decodeGMembers_noPanic (c : Codec) (ms : Members) (hms : ∀ kv ∈ ms, NoPanicAt c kv.2) :
+    ∀ st, (decodeGMembers c ms st).isPanic = false := by
   induction ms with
-  | nil => intro st hst; exact ⟨rfl, fun st' h => by cases h; exact hst⟩
+  | nil => intro st; rfl
   | cons kv ms ih =>
     obtain ⟨k, v⟩ := kv
-    intro st hst
-    have hs := gStep_good c k v st hst (hms (k, v) (by simp))
+    intro st
+    have hs := gStep_noPanic c k v st (hms (k, v) (by simp))
     simp only [decodeGMembers]
     cases hg : gStep c k v st (geomsOf c v) with
-    | ok st1 => exact ih (fun kv hkv => hms kv (by simp [hkv])) st1 (hs.2 st1 hg)
-    | err e => exact ⟨rfl, fun st' h => by cases h⟩
-    | panic s => rw [hg] at hs; cases hs.1
-
-theorem decodeGElems_good (c : Codec) (l : List Json)
-    (hl : ∀ j ∈ l, isNull j = false ∧ (decodeGeometry c j).isPanic = false) :
-    (decodeGElems c l).isPanic = false ∧ ∀ ds, decodeGElems c l = .ok ds → hasNilMember ds = false := by
-  induction l with
-  | nil => exact ⟨rfl, fun ds h => by cases h; rfl⟩
-  | cons j l ih =>
-    obtain ⟨hn, hp⟩ := hl j (by simp)
-    have ih' := ih (fun x hx => hl x (by simp [hx]))
-    have hj : gElemOf j (decodeGeometry c j) = (decodeGeometry c j).map some :=
-      gElemOf_ne_null j _ (by rintro rfl; simp [isNull] at hn)
-    simp only [decodeGElems, hj]
-    cases hd : decodeGeometry c j with
-    | ok d =>
-      simp only [Res.map]
-      cases hr : decodeGElems c l with
-      | ok ds =>
-        refine ⟨rfl, fun ds' h => ?_⟩
-        cases h
-        simpa [hasNilMember] using ih'.2 ds hr
-      | err e => exact ⟨rfl, fun ds' h => by cases h⟩
-      | panic s => rw [hr] at ih'; cases ih'.1
-    | err e => exact ⟨rfl, fun ds' h => by cases h⟩
-    | panic s => rw [hd] at hp; cases hp
-
-/-- **No geometry decoder panics on a document without `null` array elements.** -/
-theorem noPanicAt_of_noNull (c : Codec) : ∀ j : Json, noNullElem j = true → NoPanicAt c j := by
-  intro j
-  induction j using Json.ind with
-  | hnull => intro _; cases c <;> exact ⟨rfl, rfl, fun ds h => by cases h; rfl⟩
-  | hbool b => intro _; exact ⟨rfl, rfl, fun ds h => by cases h; rfl⟩
-  | hnum b => intro _; exact ⟨rfl, rfl, fun ds h => by cases h; rfl⟩
-  | hstr s => intro _; exact ⟨rfl, rfl, fun ds h => by cases h; rfl⟩
-  | harr l ih =>
-    intro h
-    have hl := (noNullElems_iff l).1 (by simpa [noNullElem] using h)
-    have := decodeGElems_good c l (fun j hj => ⟨(hl j hj).1, (ih j hj (hl j hj).2).1⟩)
-    refine ⟨by cases c <;> rfl, ?_, ?_⟩
-    · simpa [geomsOf] using this.1
-    · simpa [geomsOf] using this.2
-  | hobj ms ih =>
-    intro h
-    have hm := (noNullMembers_iff ms).1 (by simpa [noNullElem] using h)
-    refine ⟨?_, rfl, fun ds h => by cases h; rfl⟩
-    have hg := decodeGMembers_good c ms (fun kv hkv => ih kv hkv (hm kv hkv)) {} (by intro ds h; cases h)
-    simp only [decodeGeometry]
-    cases hd : decodeGMembers c ms {} with
-    | ok st => exact finishGeometry_noPanic c st (hg.2 st hd)
+    | ok st1 => exact ih (fun kv hkv => hms kv (by simp [hkv])) st1
     | err e => rfl
-    | panic s => rw [hd] at hg; cases hg.1
+    | panic s => rw [hg] at hs; cases hs
 
 theorem isPanic_map {ε α β : Type} (f : α → β) (r : Res ε α) : (r.map f).isPanic = r.isPanic := by
   cases r <;> rfl
 
-theorem geometry_total_partial' (c : Codec) (j : Json) (h : noNullElem j = true) :
+theorem gElemOf_noPanic (j : Json) (r : R DG) (h : r.isPanic = false) : (gElemOf j r).isPanic = false := by
+  cases j <;> simp [gElemOf, isPanic_map, h] <;> rfl
+
+theorem decodeGElems_noPanic (c : Codec) (l : List Json) (hl : ∀ j ∈ l, (decodeGeometry c j).isPanic = false) :
+    (decodeGElems c l).isPanic = false := by
+  induction l with
+  | nil => rfl
+  | cons j l ih =>
+    have ih' := ih (fun x hx => hl x (by simp [hx]))
+    have hj := gElemOf_noPanic j _ (hl j (by simp))
+    simp only [decodeGElems]
+    cases hd : gElemOf j (decodeGeometry c j) with
+    | ok d =>
+      simp only
+      cases hr : decodeGElems c l with
+      | ok ds => rfl
+      | err e => rfl
+      | panic s => rw [hr] at ih'; cases ih'
+    | err e => rfl
+    | panic s => rw [hd] at hj; cases hj
+
+/-- **No geometry decoder panics.** -/
+theorem noPanicAt_all (c : Codec) : ∀ j : Json, NoPanicAt c j := by
+  intro j
+  induction j using Json.ind with
+  | hnull => cases c <;> exact ⟨rfl, rfl⟩
+  | hbool b => exact ⟨rfl, rfl⟩
+  | hnum b => exact ⟨rfl, rfl⟩
+  | hstr s => exact ⟨rfl, rfl⟩
+  | harr l ih =>
+    refine ⟨by cases c <;> rfl, ?_⟩
+    simpa [geomsOf] using decodeGElems_noPanic c l (fun j hj => (ih j hj).1)
+  | hobj ms ih =>
+    refine ⟨?_, rfl⟩
+    have hg := decodeGMembers_noPanic c ms (fun kv hkv => ih kv hkv) {}
+    simp only [decodeGeometry]
+    cases hd : decodeGMembers c ms {} with
+    | ok st => exact finishGeometry_noPanic c st
+    | err e => rfl
+    | panic s => rw [hd] at hg; cases hg
+
+theorem geometry_total' (c : Codec) (j : Json) :
     (geomOfDoc c j).isPanic = false ∧ (geomPtrOfDoc j).isPanic = false := by
-  have hc := fun c => (noPanicAt_of_noNull c j h).1
+  have hc := fun c => (noPanicAt_all c j).1
   constructor
   · simpa [geomOfDoc, isPanic_map] using hc c
   · cases j <;> first | rfl | simpa [geomPtrOfDoc, geomOfDoc, isPanic_map] using hc .json
@@ -257,8 +185,7 @@ theorem geometry_total_partial' (c : Codec) (j : Json) (h : noNullElem j = true)
 theorem fTypeErr_noPanic (c : Codec) (st : FSt) : (fTypeErr c st).isPanic = false := by
   cases c <;> rfl
 
-theorem fStep_noPanic (c : Codec) (k : String) (v : Json) (st : FSt)
-    (hv : isNull v = false → (decodeGeometry c v).isPanic = false) : (fStep c k v st).isPanic = false := by
+theorem fStep_noPanic (c : Codec) (k : String) (v : Json) (st : FSt) : (fStep c k v st).isPanic = false := by
   unfold fStep
   split
   · unfold fIdField; split <;> rfl
@@ -267,29 +194,28 @@ theorem fStep_noPanic (c : Codec) (k : String) (v : Json) (st : FSt)
     · split
       · unfold fBBoxField; split <;> first | rfl | exact fTypeErr_noPanic c st
       · split
-        · cases v with
+        · have hv := (noPanicAt_all c v).1
+          cases v with
           | null => rfl
           | _ =>
             simp only [fGeomField]
-            have := hv rfl
-            revert this
+            revert hv
             cases decodeGeometry c _ <;> simp [Res.isPanic]
         · split
           · unfold fPropsField; split <;> first | rfl | exact fTypeErr_noPanic c st
           · rfl
 
-theorem decodeFMembers_noPanic (c : Codec) (ms : Members)
-    (hms : ∀ kv ∈ ms, isNull kv.2 = false → (decodeGeometry c kv.2).isPanic = false) :
+theorem decodeFMembers_noPanic (c : Codec) (ms : Members) :
     ∀ st, (decodeFMembers c ms st).isPanic = false := by
   induction ms with
   | nil => intro st; rfl
   | cons kv ms ih =>
     obtain ⟨k, v⟩ := kv
     intro st
-    have hs := fStep_noPanic c k v st (hms (k, v) (by simp))
+    have hs := fStep_noPanic c k v st
     simp only [decodeFMembers]
     cases hg : fStep c k v st with
-    | ok st1 => exact ih (fun kv hkv => hms kv (by simp [hkv])) st1
+    | ok st1 => exact ih st1
     | err e => rfl
     | panic s => rw [hg] at hs; cases hs
 
@@ -303,23 +229,15 @@ theorem featureFinish_noPanic (st : FSt) : (featureFinish st).isPanic = false :=
       · rfl
       · split <;> rfl
 
-/-- no feature decoder panics on a document without `null` array elements — unless the document is
-    a white-space padded `null` handed to `UnmarshalFeature` (`feature_padded_null_panics'`) -/
-theorem feature_total_partial' (c : Codec) (rawNull : Bool) (j : Json) (h : noNullElem j = true)
-    (hn : rawNull = true ∨ isNull j = false ∨ c = .bson) : (featureOfDoc c rawNull j).isPanic = false := by
+/-- **No feature decoder panics.** -/
+theorem feature_total' (c : Codec) (rawNull : Bool) (j : Json) : (featureOfDoc c rawNull j).isPanic = false := by
   unfold featureOfDoc
   split
   · rfl
-  · rename_i hr
-    cases j with
-    | null =>
-      cases c with
-      | bson => rfl
-      | json => rcases hn with h1 | h1 | h1 <;> simp_all [isNull]
+  · cases j with
+    | null => cases c <;> rfl
     | obj ms =>
-      have hm := (noNullMembers_iff ms).1 (by simpa [noNullElem] using h)
-      have := decodeFMembers_noPanic c ms
-        (fun kv hkv _ => (noPanicAt_of_noNull c kv.2 (hm kv hkv)).1) {}
+      have := decodeFMembers_noPanic c ms {}
       simp only
       cases hd : decodeFMembers c ms {} with
       | ok st => exact featureFinish_noPanic st
@@ -328,69 +246,25 @@ theorem feature_total_partial' (c : Codec) (rawNull : Bool) (j : Json) (h : noNu
     | arr l => cases c <;> rfl
     | _ => rfl
 
-theorem feature_ptr_total_partial' (j : Json) (h : noNullElem j = true) :
-    (featurePtrOfDoc j).isPanic = false := by
+theorem feature_ptr_total' (j : Json) : (featurePtrOfDoc j).isPanic = false := by
   cases j with
   | null => rfl
   | _ =>
     simp only [featurePtrOfDoc, isPanic_map]
-    exact feature_total_partial' .json false _ h (Or.inr (Or.inl rfl))
+    exact feature_total' .json false _
 
 /-! #### feature collections -/
 
-theorem mem_insertKeep (k : String) (v : Json) (m : Members) :
-    ∀ kv ∈ insertKeep k v m, kv = (k, v) ∨ kv ∈ m := by
-  induction m with
-  | nil => intro kv h; simp [insertKeep] at h; exact Or.inl h
-  | cons kv' m ih =>
-    obtain ⟨k', v'⟩ := kv'
-    intro kv h
-    unfold insertKeep at h
-    split at h
-    · rcases List.mem_cons.1 h with h | h
-      · exact Or.inl h
-      · exact Or.inr h
-    · split at h
-      · exact Or.inr h
-      · rcases List.mem_cons.1 h with h | h
-        · exact Or.inr (by simp [h])
-        · rcases ih kv h with h | h
-          · exact Or.inl h
-          · exact Or.inr (by simp [h])
-
-theorem mem_normKeys (ms : Members) : ∀ kv ∈ normKeys ms, kv ∈ ms := by
-  induction ms with
-  | nil => intro kv h; cases h
-  | cons kv' ms ih =>
-    obtain ⟨k, v⟩ := kv'
-    intro kv h
-    rcases mem_insertKeep k v (normKeys ms) kv h with h | h
-    · simp [h]
-    · simp [ih kv h]
-
-theorem mem_of_lookupKey (k : String) (m : Members) (v : Json) (h : lookupKey k m = some v) :
-    ∃ k', (k', v) ∈ m := by
-  induction m with
-  | nil => cases h
-  | cons kv m ih =>
-    obtain ⟨k', v'⟩ := kv
-    unfold lookupKey at h
-    split at h
-    · cases h; exact ⟨k', by simp⟩
-    · obtain ⟨k'', hk⟩ := ih h; exact ⟨k'', by simp [hk]⟩
-
-theorem decodeFeatures_noPanic (c : Codec) (l : List Json) (hl : ∀ j ∈ l, noNullElem j = true) :
-    (decodeFeatures c l).isPanic = false := by
+theorem decodeFeatures_noPanic (c : Codec) (l : List Json) : (decodeFeatures c l).isPanic = false := by
   induction l with
   | nil => rfl
   | cons j l ih =>
-    have ih' := ih (fun x hx => hl x (by simp [hx]))
     have hj : (featureElem c j).isPanic = false := by
       cases j with
       | null => rfl
       | _ =>
         simp only [featureElem, isPanic_map]
-        exact feature_total_partial' c false _ (hl _ (by simp)) (Or.inr (Or.inl rfl))
+        exact feature_total' c false _
     simp only [decodeFeatures]
     cases hf : featureElem c j with
     | ok f =>
@@ -398,12 +272,11 @@ theorem decodeFeatures_noPanic (c : Codec) (l : List Json) (hl : ∀ j ∈ l, no
       cases hr : decodeFeatures c l with
       | ok fs => rfl
       | err e => rfl
-      | panic s => rw [hr] at ih'; cases ih'
+      | panic s => rw [hr] at ih; cases ih
     | err e => rfl
     | panic s => rw [hf] at hj; cases hj
 
-theorem decodeFCMap_noPanic (c : Codec) (m : Members) (hm : ∀ kv ∈ m, noNullElem kv.2 = true) :
-    (decodeFCMap c m).isPanic = false := by
+theorem decodeFCMap_noPanic (c : Codec) (m : Members) : (decodeFCMap c m).isPanic = false := by
   have h1 : (fcTypeOf c (lookupKey "type" m)).isPanic = false := by
     unfold fcTypeOf; split <;> first | rfl | (cases c <;> rfl)
   have h2 : (fcBBoxOf c (lookupKey "bbox" m)).isPanic = false := by
@@ -411,16 +284,13 @@ theorem decodeFCMap_noPanic (c : Codec) (m : Members) (hm : ∀ kv ∈ m, noNull
     · rfl
     · split <;> rfl
   have h3 : (fcFeaturesOf c (lookupKey "features" m)).isPanic = false := by
-    cases hl : lookupKey "features" m with
+    cases lookupKey "features" m with
     | none => rfl
     | some v =>
-      obtain ⟨k', hk⟩ := mem_of_lookupKey _ _ _ hl
-      have hv := hm (k', v) hk
       cases v with
       | arr l =>
         simp only [fcFeaturesOf, isPanic_map]
-        exact decodeFeatures_noPanic c l fun j hj =>
-          ((noNullElems_iff l).1 (by simpa [noNullElem] using hv) j hj).2
+        exact decodeFeatures_noPanic c l
       | _ => rfl
   have h4 : (fcExtrasOf c (m.filter fun kv => !reservedKey kv.1)).isPanic = false := by
     unfold fcExtrasOf; split
@@ -432,22 +302,27 @@ theorem decodeFCMap_noPanic (c : Codec) (m : Members) (hm : ∀ kv ∈ m, noNull
     cases fcFeaturesOf c (lookupKey "features" m) <;>
     cases fcExtrasOf c (m.filter fun kv => !reservedKey kv.1) <;> simp [Res.isPanic]
 
-/-- no feature-collection decoder panics on a document without `null` array elements -/
-theorem fc_total_partial' (c : Codec) (rawNull : Bool) (j : Json) (h : noNullElem j = true) :
-    (fcOfDoc c rawNull j).isPanic = false := by
+/-- **No feature-collection decoder panics.** -/
+theorem fc_total' (c : Codec) (rawNull : Bool) (j : Json) : (fcOfDoc c rawNull j).isPanic = false := by
   unfold fcOfDoc
   split
   · rfl
   · cases j with
     | null => cases c <;> rfl
     | obj ms =>
-      have hm := (noNullMembers_iff ms).1 (by simpa [noNullElem] using h)
-      have := decodeFCMap_noPanic c (normKeys ms) (fun kv hkv => hm kv (mem_normKeys ms kv hkv))
+      have := decodeFCMap_noPanic c (normKeys ms)
       simp only
       cases hd : decodeFCMap c (normKeys ms) with
       | ok fc => simp only; split <;> rfl
       | err e => rfl
       | panic s => rw [hd] at this; cases this
     | _ => rfl
+
+theorem fc_ptr_total' (j : Json) : (fcPtrOfDoc j).isPanic = false := by
+  cases j with
+  | null => rfl
+  | _ =>
+    simp only [fcPtrOfDoc, isPanic_map]
+    exact fc_total' .json false _
 
 end Orb.GeoJSON
